@@ -52,13 +52,13 @@ Print Assumptions C27_value_printer_is_model_printer.
    body of hy-repr is regenerated from hy_repr.hy on every run (Gen/PrintTables.v: hy_repr_body, the sequence
    of its steps on the state with its try/finally); inv says that _quoting is set while a model is printed. *)
 Theorem C27_repr_state_restored_on_every_exit :
-  forall (ismodel : nat -> bool) o b st, inv ismodel st ->
-  snd (hy_repr_call ismodel hy_repr_body o b st) = st.
+  forall (ismodel : nat -> bool) (ph : nat -> text) o b st, inv ismodel st ->
+  snd (hy_repr_call ismodel ph hy_repr_body o b st) = st.
 Proof. exact repr_state_restored. Qed.
 Print Assumptions C27_repr_state_restored_on_every_exit.
 
-Theorem C27_repr_idle_after_any_call : forall (ismodel : nat -> bool) o b,
-  snd (hy_repr_call ismodel hy_repr_body o b {| quoting := false; seen := [] |}) = {| quoting := false; seen := [] |}.
+Theorem C27_repr_idle_after_any_call : forall (ismodel : nat -> bool) (ph : nat -> text) o b,
+  snd (hy_repr_call ismodel ph hy_repr_body o b idle) = idle.
 Proof. exact repr_idle_after_any_call. Qed.
 
 (* Refutations of the full statement (witnesses computed in Print/Witness27.v, replayed on the
